@@ -8,6 +8,8 @@ import (
 	"path/filepath"
 	"time"
 
+	"github.com/arm-doe/sts"
+
 	"github.com/arm-doe/sts/internal/verifrt"
 )
 
@@ -47,10 +49,17 @@ func H_C20_Strays(v *verifrt.T) {
 	if which == 1 {
 		ph, ptag = h2, "v2"
 	}
-	v.Assert(e.sendPart("a", "", ph, size, 0, m, ptag) == nil, "C20 set-up: part of the left-over received")
 	part := filepath.Join(e.stage, "a.part")
 	cmpPath := filepath.Join(e.stage, "a.cmp")
-	v.Assert(v.Exists(part) && v.Exists(cmpPath), "C20 set-up: partial and companion staged")
+	preparedOnly := v.Choose("only-prepared-no-part-received-yet", 2) == 1
+	if preparedOnly {
+		// the request was announced (Prepare) but no part has been recorded yet
+		e.s.Prepare([]sts.Binned{&vBinned{name: "a", hash: ph, size: size, beg: 0, end: m, t: v.Now()}})
+		v.Assert(v.Exists(part), "C20 set-up: partial prepared")
+	} else {
+		v.Assert(e.sendPart("a", "", ph, size, 0, m, ptag) == nil, "C20 set-up: part of the left-over received")
+		v.Assert(v.Exists(part) && v.Exists(cmpPath), "C20 set-up: partial and companion staged")
+	}
 	age := v.Duration("age", 0, 72*time.Hour)
 	v.Assume(verifrt.Or(age+time.Minute <= 24*time.Hour, age >= 24*time.Hour+time.Minute)) // margin for native replay
 	v.SetAge(part, age)
@@ -60,6 +69,18 @@ func H_C20_Strays(v *verifrt.T) {
 
 	old := age >= 24*time.Hour
 	sameVersionDelivered := which == 0 && knowledge != 2
+	if preparedOnly {
+		// without a record the version of the partial is unknown: only age and
+		// "this name was delivered" can justify removing it
+		if !v.Exists(part) {
+			v.Reach("removed")
+			v.Assert(old, "C20.O1 nothing younger than the threshold is removed")
+			v.Assert(knowledge != 2, "C20.O1 a partial is removed only if its name was delivered or logged")
+		} else {
+			v.Reach("kept")
+		}
+		return
+	}
 	if v.Exists(part) {
 		v.Reach("kept")
 	} else {
